@@ -119,7 +119,7 @@ func runC04(ctx *core.Ctx) {
 	subC04.RunList(ctx, cases)
 	ctx.Extra("noncanonical_inputs_accepted", ctx.DistinctCount("noncanonical-accepted"))
 	if ctx.DistinctCount("accept") != 2 || ctx.DistinctCount("noncanonical-accepted") < 20 {
-		core.InternalError("C04: vacuous coverage")
+		ctx.Vacuous("C04: vacuous coverage")
 	}
 }
 
@@ -285,7 +285,7 @@ func runC13(ctx *core.Ctx) {
 	subC13Export.Run(ctx, len(all)*nv, func(i int) ptEncCase { return ptEncCase{all[i/nv], viaForms[i%nv]} })
 	ctx.Extra("z_zero_quadruples_seen", ctx.DistinctCount("z-zero") > 0)
 	if ctx.DistinctCount("accept") != 2 || ctx.DistinctCount("z-zero") == 0 {
-		core.InternalError("C13: vacuous coverage")
+		ctx.Vacuous("C13: vacuous coverage")
 	}
 }
 
